@@ -37,18 +37,27 @@ TECHNIQUE = ("Lean 4: wall clock as explicit input; step laws, invariant (stored
              "by the event; conditional monotonicity of the reported time with universally quantified counter-theorems; "
              "correspondence with the real clock (bare and inside Engine::process)")
 LEVEL_TEXT = ("Proof (sub-check of C20). Lean theorems over the clock model (lean/BarterModel/Props/C20K.lean), for all events, states, "
-              "wall-clock readings and call histories: EngineEvent::time_exchange is the greatest exchange timestamp carried anywhere in the "
-              "event, none iff there is none (time_exchange_is_latest_timestamp, _some_iff, _none_iff, snapshot_time_most_recent); LiveClock is "
-              "the wall clock and ignores events; HistoricalClock: an event at least as recent as the clock sets it, older and timestamp-less "
-              "events change nothing (accepted_event_sets_clock, older_event_is_ignored, no_timestamp_is_ignored), the stored time never decreases "
-              "and is the running maximum of the history (last_never_decreases, refines_spec, spec_last_is_max), time() = last + wall time elapsed "
-              "since the anchoring event (time_is_last_plus_elapsed, time_after_history_eq_spec, time_advances_with_wall), successive time() "
-              "readings never go back provided no accepted event is older than what the clock already extrapolated to (reported_time_monotone), "
-              "and do go back otherwise (overtaken_event_rewinds, equal_timestamp_rewinds: an event with the same timestamp as the previous one "
-              "rewinds the reported time by the elapsed wall time; submillisecond_backstep: the `>= 0` guard on the truncated millisecond count "
-              "adds negative deltas down to -1 ms). The model is tied to the code by running the same call sequences through the real clock, "
-              "bare and inside Engine::process, on every run.")
+              "wall-clock readings and call histories. RESULTS: EngineEvent::time_exchange is the greatest exchange timestamp carried anywhere in the "
+              "event, none iff there is none (time_exchange_is_latest_timestamp, _some_iff, _none_iff, snapshot_time_most_recent); HistoricalClock: an "
+              "event at least as recent as the clock sets it, older events change nothing (accepted_event_sets_clock, older_event_is_ignored), the "
+              "STORED time never decreases and is the running maximum of the history — for every history, no proviso (last_never_decreases, "
+              "refines_spec, spec_last_is_max); time() = last + wall time elapsed since the anchoring event (time_is_last_plus_elapsed, "
+              "time_after_history_eq_spec, time_advances_with_wall). THE REPORTED TIME IS NOT MONOTONE IN GENERAL: overtaken_event_rewinds, "
+              "equal_timestamp_rewinds (an event with the same timestamp as the previous one rewinds the reported time by the elapsed wall time), "
+              "submillisecond_backstep (the `>= 0` guard on the truncated millisecond count adds negative deltas down to -1 ms). "
+              "reported_time_monotone holds only under `NotBehind` (no accepted event older than what the clock already extrapolated to), a proviso "
+              "that is never discharged from inputs and that every feed with a REPEATED exchange timestamp processed after any wall time violates "
+              "(repeated_timestamp_violates_not_behind), as does every feed slower than the wall clock (slow_feed_violates_not_behind): it is a "
+              "statement about idealised replays (strictly increasing timestamps at least as fast as real time, or zero wall time: "
+              "instant_replay_reports_last), not about realistic ones. DEFINITIONAL / BOOKKEEPING (rfl; listed for completeness, not results): "
+              "live_clock_is_wall, live_clock_ignores_events, no_timestamp_is_ignored, non_item_events_carry_no_time, new_reads_seed. The model is "
+              "tied to the code by running the same call sequences through the real clock, bare and inside Engine::process, on every run.")
 LEVEL_NOTE = ("Trusted: Lean kernel; axioms propext/Classical.choice/Quot.sound only; the hand-written model (sampled correspondence: 400 quick / "
               "6 000 random + 16 105 enumerated thorough); harness and driver; chrono. The wall clock is not controllable: time() is bounded "
-              "between two readings, never compared exactly. "
+              "between two readings, never compared exactly; on the harness' only-increasing wall the `time within` / `ge_last` lines are the same "
+              "on model and spec and the `_ => time_exchange_last` arm of time() (wall behind the anchor) is never executed — submillisecond_backstep "
+              "and a change of the guard `>= 0` into `> 0` are model-level / invisible to both the translation tie (whole milliseconds: both guards "
+              "agree there) and the harness. The spec's anchor (`specAnchor`) uses the code's own acceptance condition; only the stored time has an "
+              "independent characterisation (spec_last_is_max), and the spec prints {fresh|kept} on ties. EngineEvent::time_exchange and the "
+              "accessors are hand-modelled (not in the translator group `clock`). "
               "Additionally tied by translation: LiveClock::{time, process} and HistoricalClock::{new, time, process} are regenerated from the current clock.rs on every run by tools/rust2lean_sm.py (Generated/Machines2.lean; Utc::now() an explicit parameter, Arc<RwLock<_>> transparent) and proved equal to the model on millisecond-aligned instants (kernels_agree_with_source); the translator and its prelude are trusted for that tie.")
